@@ -133,7 +133,7 @@ GapTo(u, t) == LET ds == {d \in AllDeps(u) : d.p = t /\ ~d.onstart}
                IN IF ds = {} THEN 0 ELSE MaxOf({d.gap : d \in ds})
 Deadline(t) ==
   IF OwnEnd(t) >= 0 THEN OwnEnd(t)
-  ELSE MinOf({P.endSec}
+  ELSE MinOf({P.declEndSec}      \* the project end as DECLARED: the extension of the horizon for work that does not fit moves nobody (C09, C16)
           \cup {ts[d.p].start - d.gap : d \in {x \in AllDeps(t) : x.onstart /\ x.p # 0 /\ ts[x.p].start >= 0}}
           \cup {ts[u].start - GapTo(u, t) : u \in {v \in Succs(t) : ts[v].start >= 0}})          \* D9
 Ready(t) == ts[t].st = "todo" /\ T(t).leaf /\ IF Fwd(t) THEN ReadyF(t) ELSE ReadyB(t)
